@@ -1,6 +1,7 @@
 import P9Model.Session.Dispatch
 import P9Model.Session.Frame
 import P9Model.Spec.Coherence
+import P9Model.Session.Calls
 /-!
 # C08 — Path coherence under rename/unlink and fencing of deleted paths
 -/
@@ -458,6 +459,60 @@ theorem markChildDeleted_fences (n o : Nat) (name nm : SafeName) (c : Ctx)
     injection h'' with _ hc
     subst hc
     exact hd
+
+/-! ### a rename tells the moved Files their new parent and name -/
+
+/-- what `renameMoved` does for a reference `r` (record `x`) that is alive, then the rest of the loop -/
+def movedTail (target tnode : Nat) (newName : SafeName) (tfile r : Nat) (rest : List (Nat × SafeName)) (x : Ref) :
+    M (List Nat) := do
+  incRef r
+  whenSome x.parent decRefU
+  setRef r fun x => { x with parent := some target }
+  incRef target
+  addChild tnode r newName
+  callRenamed x.file tfile newName
+  let ps ← renameMoved target tnode newName tfile rest
+  return r :: ps
+
+theorem renameMoved_cons_live (target tnode : Nat) (newName : SafeName) (tfile r : Nat) (nm : SafeName)
+    (rest : List (Nat × SafeName)) (c : Ctx) (hlive : (c.st.refs.getD r default).refs > 0) :
+    renameMoved target tnode newName tfile ((r, nm) :: rest) c =
+      movedTail target tnode newName tfile r rest (c.st.refs.getD r default) c := by
+  unfold renameMoved movedTail
+  simp only [bind, getRef_eval, hlive, ↓reduceIte]
+
+theorem movedTail_post (target tnode : Nat) (newName : SafeName) (tfile r : Nat) (rest : List (Nat × SafeName)) (x : Ref) :
+    Post (fun c' => (⟨x.file, "Renamed", [tfile], [], [newName]⟩ : Call) ∈ c'.calls)
+      (movedTail target tnode newName tfile r rest x) := by
+  unfold movedTail
+  refine Post.bind_any _ (fun _ => Post.bind_any _ (fun _ => Post.bind_any _ (fun _ => Post.bind_any _ (fun _ =>
+    Post.bind_any _ (fun _ => ?_)))))
+  exact Post.after_call _ (fun c1 => ⟨_, rfl, List.mem_cons_self⟩)
+    (Pres.bind (renameMoved_calls _ _ _ _ _) (fun _ => Pres.pure _))
+
+/-- **`Renamed` reaches a live reference that moves**: when the callback loop of `renameChildTo`
+comes to a reference `r` that is still alive (`TryIncRef` succeeds), then – unless the loop ends in
+a panic (the "already registered" assertion of `addChild`) – the backend call log afterwards
+contains `Renamed(file of r, file of the new parent, new name)`; whatever the rest of the loop
+does, the entry stays in the log (`CallsGrow`). -/
+theorem renamed_delivered (target tnode : Nat) (newName : SafeName) (tfile r : Nat) (nm : SafeName)
+    (rest : List (Nat × SafeName)) (c : Ctx) (hlive : (c.st.refs.getD r default).refs > 0) :
+    match renameMoved target tnode newName tfile ((r, nm) :: rest) c with
+    | .ok _ c' => (⟨(c.st.refs.getD r default).file, "Renamed", [tfile], [], [newName]⟩ : Call) ∈ c'.calls
+    | .panic _ => True := by
+  rw [renameMoved_cons_live _ _ _ _ _ _ _ _ hlive]
+  have h := movedTail_post target tnode newName tfile r rest (c.st.refs.getD r default) c
+  cases hm : movedTail target tnode newName tfile r rest (c.st.refs.getD r default) c with
+  | ok a c' => simp only [hm] at h; exact h
+  | panic c' => trivial
+
+/-- … and a reference that is already being destroyed is skipped: no call for it (D16's rule for
+the directly moved references) -/
+theorem dying_reference_skipped (target tnode : Nat) (newName : SafeName) (tfile r : Nat) (nm : SafeName)
+    (rest : List (Nat × SafeName)) (c : Ctx) (hdead : (c.st.refs.getD r default).refs = 0) :
+    renameMoved target tnode newName tfile ((r, nm) :: rest) c = renameMoved target tnode newName tfile rest c := by
+  conv => lhs; unfold renameMoved
+  simp only [bind, getRef_eval, hdead, Nat.lt_irrefl, gt_iff_lt, ↓reduceIte]
 
 /-! ### current names are used; the monitor's reference model keeps every fid on its object -/
 
